@@ -107,6 +107,15 @@ def gen(rnd):
         lines.append("install_emptydir('var/empty dir', install_mode: 'rwx------')")
         exp.append((P + '/var/empty dir', 'dir', 0o700, None, ''))
     if rnd.random() < 0.5:
+        # a directory with a declared mode that ANOTHER rule has already created when the emptydir rule runs (headers are
+        # installed before empty directories): the declared mode still applies
+        add_file('hold/f.h')
+        hm = rnd.choice(['rwxr-x---', 'rwx------', 'rwxrwxr-x'])
+        lines.append("install_headers('hold/f.h', subdir: 'holder')")
+        lines.append(f"install_emptydir('include/holder', install_mode: {q(hm)})")
+        exp.append((P + '/include/holder/f.h', 'file', 0o644, 'devel', ''))
+        exp.append((P + '/include/holder', 'dir', {'rwxr-x---': 0o750, 'rwx------': 0o700, 'rwxrwxr-x': 0o775}[hm], None, ''))
+    if rnd.random() < 0.5:
         lines.append("install_symlink('the link', pointing_to: '../target file', install_dir: 'share/lnk')")
         exp.append((P + '/share/lnk/the link', 'link:../target file', None, None, ''))
     subtxt = None
@@ -248,7 +257,7 @@ def run(REG, tier, seed, jobs):
     seeds = [seed * 32452843 + i for i in range(n)]
     ev, nt, fails = pmap(_inst_chunk, chunked(iter(seeds), 2), jobs)
     return {'parts': [{'name': 'C11/bounded/real-meson-install-runs', 'function': 'meson install --no-rebuild --destdir (real copy / chmod / symlink / log)',
-                       'bound': f'{n} generated projects (install_data with relative and absolute dirs, modes and tags; headers; man pages; install_subdir with excludes, strip_directory and symbolic links pointing out of and into the tree; emptydir; symlink; a subproject; names with blanks and non-ASCII; 3 prefixes) x 5 selections (all, --tags, --skip-subprojects, both in two ways) + reinstall, uninstall by the log, --dry-run',
+                       'bound': f'{n} generated projects (install_data with relative and absolute dirs, modes and tags; headers; man pages; install_subdir with excludes, strip_directory and symbolic links pointing out of and into the tree; emptydir (also one whose directory another rule creates first); symlink; a subproject; names with blanks and non-ASCII; 3 prefixes) x 5 selections (all, --tags, --skip-subprojects, both in two ways) + reinstall, uninstall by the log, --dry-run',
                        'evaluations': ev, 'distinct_nontrivial': nt, 'rule': 'every installation', 'exhaustive': False, 'failures': fails}]}
 
 
